@@ -115,9 +115,18 @@ class EvalContext(metaclass=NamespaceableMeta):
         finally:
             self._require_all_safe = old
 
+    def check_safe(self, cfgobj, path):
+        ''' If the current context requires all visited nodes to be safe, raises UnsafeError unless ``cfgobj`` is safe. '''
+        if self._require_all_safe and not cfgobj.ayns.safe:
+            raise errors.UnsafeError(f'Note: the current context requires all evaluated nodes to be safe - see chained exceptions for more information', cfgobj, str(path))
+
     def get_node(self, *path, **kwargs):
         path = NodePath.get_list_path(*path)
         if str(path) in self._eval_cache:
+            # an already evaluated value does not tell whether the node it comes from is safe
+            node = self.cfg.ayns.get_node(path, incomplete=None)
+            if isinstance(node, ConfigNode):
+                self.check_safe(node, path)
             return self._eval_cache[str(path)]
         return self.cfg.ayns.get_node(path, **kwargs)
 
@@ -129,9 +138,7 @@ class EvalContext(metaclass=NamespaceableMeta):
         self._eval_stack.append(prefix)
         prefix = NodePath.get_list_path(prefix, check_types=False) or NodePath()
 
-        if self._require_all_safe:
-            if not cfgobj.ayns.safe:
-                raise errors.UnsafeError(f'Note: the current context requires all evaluated nodes to be safe - see chained exceptions for more information', cfgobj, str(prefix))
+        self.check_safe(cfgobj, prefix)
 
         if id(cfgobj) in self._eval_cache_id:
             return self._eval_cache_id[id(cfgobj)]
